@@ -1,6 +1,7 @@
 /- C15 line-protocol driver: `lake env lean --run Verif/C15/Driver.lean` -/
 import Verif.Common.Proto
 import Verif.C15.Model
+import Verif.C15.Text
 open Lean Verif.Proto Verif.C15
 
 namespace Verif.C15.Driver
@@ -269,17 +270,24 @@ def handleItems (j : Json) : Except String Json := do
   | .error e =>
     if e.startsWith "E:" then pure (Json.mkObj [("construct", Json.str (e.drop 2).toString)]) else throw e
   | .ok items =>
-    let toks := (items.map layoutItem).flatMap toksItem
+    -- the text `format` writes; the tokens the lexer returns for it are those of `relLines 0 items`
+    -- (every docstring in the form the formatter wrote at the indentation of its place)
+    let toks := (relLines 0 items).flatMap toksItem
     let parsed := parseFile toks
-    pure (Json.mkObj [
+    -- long files: the text is compared only when the request asks for it
+    let wantText := match j.getObjVal? "text" with
+      | .ok (Json.bool false) => false
+      | _ => true
+    pure (Json.mkObj ((if wantText then [("text", cps (fmtFile items)),
+        ("text2", jParse parsed (fun its => cps (fmtFile its)))] else []) ++ [
       ("orig", jList jItem items),
       ("toks", jList jTok toks),
       ("parsed", jParse parsed (jList jItemRaw)),
       ("toks2", jParse parsed (fun its =>
-        jList jTok ((its.map layoutItem).flatMap toksItem))),
+        jList jTok ((relLines 0 its).flatMap toksItem))),
       ("expand", jList (itemExpand jDoc) items),
       ("expand2", jParse parsed (jList (itemExpand jRawDoc))),
-      ("flags", jList itemFlags items)])
+      ("flags", jList itemFlags items)]))
 
 def ofTok (j : Json) : Except String Tok := do
   match (← j.getArr?).toList with
